@@ -339,6 +339,11 @@ func genFTy(r *vh.Rand, scope string, env EnumEnv) (FTy, string) {
 		class := ""
 		if t.KF == KCustom {
 			t.KPat = vh.Pick(r, patterns)
+			if genKeyWellKnown && r.Chance(35) {
+				// the custom pattern is also written as the validation pattern, where the reader's
+				// well-known table sees it
+				t.KPat = vh.Pick(r, wellKnownPatterns)
+			}
 			if scope == "c12" && r.Chance(50) {
 				// (not the empty pattern: KeyFormat.Custom.pattern is a required value of the source schema)
 				for t.KPat = genPattern(r); t.KPat == ""; t.KPat = genPattern(r) {
@@ -361,9 +366,6 @@ func genFTy(r *vh.Rand, scope string, env EnumEnv) (FTy, string) {
 			}
 		}
 		t.List = genLPay(r, false, false)
-		if t.List != nil && t.KF == KInformal {
-			class = "compile-error"
-		}
 		if scope == "c12" && t.KF == KCustom && class == "" && r.Chance(12) {
 			t.KPat = vh.Pick(r, badPatterns)
 			class = "unevaluable-pattern"
@@ -393,10 +395,11 @@ func genFTy(r *vh.Rand, scope string, env EnumEnv) (FTy, string) {
 		if r.Chance(40) {
 			ts := &TSRules{XMin: optBool(r), XMax: optBool(r)}
 			// j5s text cannot set a timestamp attribute ("unsupported scalar type"): bounds through the AST only
-			if genAST && r.Chance(60) {
+			// (C04 quantifies over j5s packages: what no .j5s file can say is not generated there)
+			if genAST && genTSBounds && r.Chance(60) {
 				ts.Min = ptr(int64(r.Range(0, 2000000000)))
 			}
-			if genAST && r.Chance(60) {
+			if genAST && genTSBounds && r.Chance(60) {
 				ts.Max = ptr(int64(r.Range(0, 2000000000)))
 			}
 			if ts.Min != nil || ts.Max != nil || ts.XMin != nil || ts.XMax != nil || genAST {
@@ -485,6 +488,10 @@ func genProp04(r *vh.Rand, name string, env EnumEnv) genDecl {
 }
 
 // lib/j5schema wellKnownStringPatterns
+// switches of the C04 run: timestamp bounds (sayable through the source AST only) are
+// not generated, custom keys now and then carry one of the reader's well-known patterns
+var genTSBounds, genKeyWellKnown = true, false
+
 var wellKnownPatterns = []string{`^\d{4}-\d{2}-\d{2}$`, `^\d(.?\d)?$`, "^[0-9A-Za-z]{22}$"}
 
 // propName: property names as j5s writes them (lowerCamel), with the shapes
